@@ -403,6 +403,13 @@ def random_trace(rng, nsteps, focus=None):
             nt = len(init[tgt - 1]["cell"]["k"])
             scenario = [ev, {"op": "poke", "x": tgt, "name": "k", "i": rng.randint(1, nt), "v": 2 * rng.randrange(min(3, len(pal.values)))},
                         json.loads(json.dumps(ev))]
+    if scenario is None and focus and "unique" in focus and len(init[0]["cell"]["k"]) >= 2 and rng.random() < 0.2:
+        # a frame that was grouped earlier (group_by marks the object itself), then this property's calls on it
+        scenario = [{"op": "group_by", "x": 1, "cols": [rng.choice(["k", "a"])]},
+                    rng.choice([{"op": "unique", "x": 1, "a": {"op": "unique", "cols": []}},
+                                {"op": "unique", "x": 1, "a": {"op": "unique", "cols": ["a"]}},
+                                {"op": "drop_na", "x": 1, "a": {"op": "drop_na", "cols": ["a"]}},
+                                {"op": "head", "x": 1, "a": {"op": "head", "n": 2}}])]
     if scenario is None and focus and "full" in focus and len(init[1]["cell"]["k"]) >= 2 and rng.random() < 0.3:
         # an operand that was grouped earlier (group_by marks the object itself): right-hand or left-hand side of a join
         side = rng.choice([1, 2, 2])
